@@ -57,6 +57,10 @@ def gen_machine(rng: random.Random, P: Profile, scn: Scn):
     n = rng.choice([1, 2, 2, 3, 3, 3, 4, 4, 5, 6][: 4 + P.max_states]) if P.max_states >= 2 else 1
     n = min(n, P.max_states)
     vals = rng.sample(STATE_VALUE_TOKS, n) if rng.random() < 0.7 else [20 + i for i in range(n)]
+    if vals[0] == 20 and n > 1 and rng.random() < 0.6:
+        # state values that are the *ids* of other states ("s1" is the value of s0, ...): values and ids are
+        # different name spaces (start_value, the model field and states_map speak values only)
+        rng.shuffle(vals)
     init = rng.randrange(n)
     for i in range(n):
         scn.states.append(St(val=vals[i], initial=(i == init)))
@@ -262,13 +266,13 @@ def gen_acts(rng: random.Random, P: Profile, scn: Scn, evs, n_ops):
             tid = rng.randint(0, horizon)
             if can_fault(c, tid):
                 busy.setdefault(tid, set()).add(phase_of(c))
-                rows_first.append((c.id, tid, tid, 0, rng.randint(1, 9), []))
+                rows_first.append((c.id, tid, tid, 0, rng.randint(1, 17), []))
     for c in vals:
         if rng.random() < P.p_validator_raise:
             tid = rng.randint(1, horizon)
             if can_fault(c, tid):
                 busy.setdefault(tid, set()).add("validators")
-                rows_first.append((c.id, tid, tid, 0, rng.randint(1, 9), []))
+                rows_first.append((c.id, tid, tid, 0, rng.randint(1, 17), []))
     scn.acts = rows_first + rows_last
 
 
@@ -410,3 +414,47 @@ def chain_nontrivial(s, a, rt):
                 return True
             cur = []
     return False
+
+
+def late_listeners(rng: random.Random, s: Scn, p: float = 0.35):
+    """mutate: with probability `p`, listeners on which nothing depends at construction (convention names only)
+    are attached with `add_listener` at a random point of the history instead — typically *after* the
+    transitions they listen to have already run — and sometimes attached again later"""
+    if rng.random() >= p or s.is_chain():
+        return
+    used = sorted({c.provider for c in s.cbs if c.provider.startswith("L")})
+    was_async = s.is_async()
+    ops = list(s.ops)
+    moved = False
+    for L in used:
+        if L not in s.listeners_ctor:
+            continue
+        conv_only = all(c.style == "conv" and not c.alias_of for c in s.cbs if c.provider == L)
+        if not conv_only or rng.random() < 0.3:
+            continue
+        s.listeners_ctor.remove(L)
+        pos = rng.randint(max(1, len(ops) // 2), len(ops)) if rng.random() < 0.6 else rng.randint(1, len(ops))
+        ops.insert(pos, ("add_listener", L))
+        moved = True
+        if not was_async or not any(c.coro and c.wrap != "lazy" for c in s.cbs
+                                    if c.provider != L and s._cb_live_at_ctor(c) and s._cb_bound(c)):
+            for c in s.cbs:
+                if c.provider == L:       # D12: an async listener attached late to a sync machine
+                    c.coro, c.yields = False, 0
+                    if c.wrap == "lazy":
+                        c.wrap = ""
+        if rng.random() < 0.25:
+            ops.insert(rng.randint(pos + 1, len(ops)), ("add_listener", L))
+    if not moved:
+        return
+    # a few more events after the attachment, so that transitions that ran before run again
+    evs = sorted({e for t in s.trans for e in t.events})
+    for _ in range(rng.randint(1, 4)):
+        ops.append(("send", rng.choice(evs)))
+    s.ops = ops
+    if s.is_async():
+        s.rtc = True
+        if s.driver == "sync":
+            s.driver = "facade"
+    elif s.driver != "sync":
+        s.driver = "sync"
